@@ -319,4 +319,24 @@ Section BiasCheckers.
            end
     | _ => false
     end.
+
+  (** ** C09: what a bias reports about the data it produced is what the next stage receives.
+      (the inline anchoring applier reports differences new - old: covered by [C19_ok], which has the state before) *)
+  Definition values_faithful (cid : string) (vals : smap num) (after : state) : bool :=
+    forallb (fun a => option_eqb nsame (mget (a_id a) vals) (mget cid (a_vals a))) (all_alts after)
+    && Nat.eqb (List.length vals) (List.length (all_alts after)).
+  Definition report_faithful (after : state) (rep : report) : bool :=
+    match rep with
+    | RNone => true
+    | ROmission omitted =>
+        forallb (fun c => negb (has_crit (c_id c) (st_crits after))
+                          && forallb (fun a => negb (mhas (c_id c) (a_vals a))) (all_alts after)) omitted
+    | RReversal items => forallb (fun it => let '(c, _, vals) := it in values_faithful (c_id c) vals after) items
+    | RFatigue _ cons_r ncons_r => list_eqb alt_same cons_r (st_cons after) && list_eqb alt_same ncons_r (st_notcons after)
+    | RConcealment c vals _ => has_crit (c_id c) (st_crits after) && values_faithful (c_id c) vals after
+    | RMixing _ _ cn _ => has_crit (cp_id cn) (st_crits after) && values_faithful (cp_id cn) (cp_values cn) after
+    | RAnchoring _ _ _ (ARNew _ added) =>
+        forallb (fun x => let '(c, vals, _) := x in has_crit (c_id c) (st_crits after) && values_faithful (c_id c) vals after) added
+    | RAnchoring _ _ _ (ARInline _) => true
+    end.
 End BiasCheckers.
